@@ -435,6 +435,13 @@ func (te *tableEngine) PlayerRedeemChips(joinPlayer JoinPlayer) error {
 	playerState := te.table.State.PlayerStates[playerIdx]
 	playerState.Bankroll += joinPlayer.RedeemChips
 
+	// a busted player who buys chips again must be known to the seat manager as having chips (same as re-buy)
+	if playerState.Bankroll > 0 {
+		if err := te.sm.UpdatePlayerHasChips(playerState.PlayerID, true); err != nil {
+			return err
+		}
+	}
+
 	te.emitEvent("PlayerRedeemChips", joinPlayer.PlayerID)
 	te.emitTablePlayerStateEvent(playerState)
 	return nil
